@@ -38,7 +38,8 @@ func checkC04(c *Ctx) {
 	if pf := newParserFacts(c); pf.err == nil { // "the configured defaults are the initial state": Defaults.* come from exactly the defaults.* fields
 		ruleFieldCorrespondenceFor(c, pf, tomlLeaves(c), "R4.8b", func(dest string) bool { return strings.HasPrefix(dest, "Defaults.") })
 	}
-	ruleDispatch(c, dv, "R4.9", true, false) // an action key press that never reaches the key handler changes nothing
+	c.importRules(emulationReachRules, []string{"R8.9a"}, "R4.10") // an action emulated by an axis always sees its release: a swallowed release leaves the action tracked and the next opposite press is taken for a pair
+	ruleDispatch(c, dv, "R4.9", true, false)                       // an action key press that never reaches the key handler changes nothing
 	c.MinCount("R4.7", 4)
 	c.MinCount("R4.8", 5)
 	c.DecidedClause("the pitch compared with 0..127 in NoteOn/AnalogNoteOn is the affine form base + 12*octave + semitone computed in int (no 8/16-bit intermediate), every emission is guarded by that value being in [0,127], the channel is (channel + offset) mod 16 and key presses use the configured velocity")
